@@ -191,10 +191,38 @@ def impl_parse(text):
     from pytezos.michelson.parse import michelson_to_micheline, MichelsonParser
     if _parser is None:
         _parser = MichelsonParser()
+    global _nparse
+    _nparse += 1
     try:
-        return ('ok', michelson_to_micheline(text, parser=_parser))
+        if _nparse % 2:
+            return ('ok', michelson_to_micheline(text, parser=_parser))
+        # the documented entry point without a parser argument; the tree belongs to the caller, who may edit it: the next parse of the same text is not affected
+        tree = michelson_to_micheline(text)
+        import copy
+        res = copy.deepcopy(tree)
+        _scribble(tree)
+        again = michelson_to_micheline(text)       # what a second caller gets for the same text after the first caller edited its own tree
+        return ('ok', res if again == res else again)
     except Exception as e:   # noqa
         return ('raised', type(e).__name__)
+
+
+_nparse = 0
+
+
+def _scribble(e):
+    if isinstance(e, list):
+        for x in e:
+            _scribble(x)
+        e.append({'prim': 'edited'})
+    elif isinstance(e, dict):
+        for x in e.get('args', []):
+            _scribble(x)
+        if 'prim' in e:
+            e['annots'] = ['%edited']
+        else:
+            for k in list(e):
+                e[k] = 'edited' 
 
 
 def plain(x):
